@@ -23,13 +23,18 @@ package main
 // as optional events.
 
 import (
+	"bufio"
 	"bytes"
 	"context"
 	"encoding/json"
 	"errors"
 	"fmt"
+	"os"
+	"os/exec"
+	"path/filepath"
 	"reflect"
 	"runtime"
+	"strconv"
 	"strings"
 	"sync"
 	"sync/atomic"
@@ -283,6 +288,7 @@ type runner struct {
 	arrivals [][]int
 	grants   [][]int
 	tainted  map[int]bool
+	inBatch  bool
 	// outer
 	grace      time.Duration
 	runCancel  context.CancelFunc
@@ -374,7 +380,9 @@ func (r *runner) doAcquire(ti int, write bool, k, c int) {
 	}
 	t.key, t.ctxID, t.res, t.releasedBy = k, c, resNone, false
 	t.toldAt.Store(0)
-	r.arrivals[k] = append(r.arrivals[k], ti)
+	if !r.inBatch { // members of a batch are logged after the thaw, see issueBatch
+		r.arrivals[k] = append(r.arrivals[k], ti)
+	}
 	t.callAt = time.Now()
 	t.wcall = nil
 	if write && r.in.Lock == "outer" {
@@ -466,6 +474,13 @@ func (r *runner) sample() obsRec {
 		o.Entries = l.entries()
 	case cmapLock:
 		o.Entries = l.m.ItemCount()
+	case outerLock:
+		// registrations (rcancels entries): every one must belong to a reader whose RLock
+		// returned nil and that has not released ("an acquisition that reports an error holds
+		// nothing"); read when nothing runs
+		if f := reflect.ValueOf(l.m).Elem().FieldByName("rcancels"); f.IsValid() && f.Kind() == reflect.Map {
+			o.Entries = f.Len()
+		}
 	}
 	return o
 }
@@ -560,14 +575,53 @@ func (r *runner) issueBatch(op c13Op, prev obsRec) bool {
 		defer runtime.GOMAXPROCS(old)
 	}
 	lock()
+	r.inBatch = true
 	for _, m := range op.Ops {
 		r.issue(m, prev)
 		if !waitQuiescent() {
+			r.inBatch = false
 			unlock()
 			return false
 		}
 	}
+	r.inBatch = false
 	unlock()
+	if !waitQuiescent() {
+		return false
+	}
+	// arrival order at the key mutexes: one acquisition per key arrives behind whoever was there
+	// before the batch; two acquisitions of a FRESH key (the only case in which a batch may hold
+	// two of one key): exactly one of them is inside now, it was first
+	r.mu.Lock()
+	for pass := 0; pass < 2; pass++ {
+		for _, m := range op.Ops {
+			if m.Op != "lock" && m.Op != "rlock" {
+				continue
+			}
+			holds := r.th[m.T].st == stHoldW || r.th[m.T].st == stHoldR
+			if holds == (pass == 0) {
+				r.arrivals[m.K] = append(r.arrivals[m.K], m.T)
+			}
+		}
+	}
+	r.mu.Unlock()
+	return true
+}
+
+// fifoBatchOK mirrors Check.v's m_batch_ok: per key at most one acquisition in a batch, or exactly
+// two when the key has no user at all (the two first calls of a fresh key).
+func fifoBatchOK(ms []c13Op, prev obsRec) bool {
+	n := map[int]int{}
+	for _, m := range ms {
+		if m.Op == "lock" {
+			n[m.K]++
+		}
+	}
+	for k, c := range n {
+		if c > 2 || (c == 2 && otherUsers(prev.St, prev.Keys, k, -1)) {
+			return false
+		}
+	}
 	return true
 }
 
@@ -629,8 +683,10 @@ func (r *runner) applicable(op c13Op, prev obsRec) bool {
 		return lk == "cmap"
 	case "cancel":
 		return lk == "ctx" || lk == "outer"
-	case "shutdown", "grace":
+	case "shutdown":
 		return lk == "outer"
+	case "grace":
+		return lk == "outer" && r.in.GraceMs <= 1000 // never sleep through a long grace period
 	case "batch":
 		if lk != "fifomap" && lk != "cmap" {
 			return false
@@ -640,7 +696,10 @@ func (r *runner) applicable(op c13Op, prev obsRec) bool {
 				return false
 			}
 		}
-		return lk != "cmap" || cmapBatchOK(op.Ops, prev)
+		if lk == "fifomap" {
+			return fifoBatchOK(op.Ops, prev)
+		}
+		return cmapBatchOK(op.Ops, prev)
 	}
 	panic("c13: bad op " + op.Op)
 }
@@ -732,6 +791,9 @@ func (r *runner) run(next func(prev obsRec, step int) (c13Op, bool)) []obsRec {
 			op = r.in.Ops[step]
 		}
 		ops = append(ops, op)
+		if next != nil {
+			jwrite("OP", op)
+		}
 		if !r.applicable(op, prev) {
 			o := prev
 			o.Skip = true
@@ -984,6 +1046,9 @@ func runScript(ctx *core.Ctx, in c13Input, next func(prev obsRec, step int) (c13
 			}
 		}
 	}
+	if next != nil {
+		jwrite("START", in) // the steps follow one by one as they are issued
+	}
 	r := newRunner(in)
 	if !waitQuiescent() {
 		panic("c13: harness not quiescent before the script")
@@ -1013,9 +1078,9 @@ func runScript(ctx *core.Ctx, in c13Input, next func(prev obsRec, step int) (c13
 		for _, m := range op.Ops {
 			shape[i] += fmt.Sprintf("[%s%d.%d]", m.Op[:2], m.T, m.K)
 		}
-		ctx.Sink.Count(in.Lock + "/op=" + op.Op)
+		count(ctx, in.Lock+"/op="+op.Op)
 		if op.Op == "batch" && i < len(obs) && !obs[i].Skip {
-			ctx.Sink.Count(in.Lock + "/" + batchClass(op, obs, i))
+			count(ctx, in.Lock+"/"+batchClass(op, obs, i))
 		}
 	}
 	cancelWhileWaiting := false
@@ -1063,22 +1128,22 @@ func runScript(ctx *core.Ctx, in c13Input, next func(prev obsRec, step int) (c13
 		hx.CoqList(coqOps), hx.CoqList(coqObs), logs(r.arrivals), logs(r.grants),
 		hx.CoqBool(r.occBad || r.crashed), hx.CoqBool(r.early), hx.CoqBool(r.badCause), hx.CoqBool(r.stuck))
 	r.mu.Unlock()
-	ctx.Sink.Count("kind=script/" + in.Lock)
+	count(ctx, "kind=script/"+in.Lock)
 	if contended {
-		ctx.Sink.Count(in.Lock + "/contended_scripts")
+		count(ctx, in.Lock+"/contended_scripts")
 	}
 	if cancelWhileWaiting {
-		ctx.Sink.Count(in.Lock + "/cancel_unblocked_a_waiter")
+		count(ctx, in.Lock+"/cancel_unblocked_a_waiter")
 	}
 	if skipped > 0 {
-		ctx.Sink.Count(in.Lock + "/scripts_with_skipped_ops")
+		count(ctx, in.Lock+"/scripts_with_skipped_ops")
 	}
 	for k, v := range c.Facts {
 		if b, ok := v.(bool); ok && b {
-			ctx.Sink.Count(in.Lock + "/fact=" + k)
+			count(ctx, in.Lock+"/fact="+k)
 		}
 	}
-	ctx.Sink.Add(c)
+	addCase(ctx, c)
 }
 
 // ---------------------------------------------------------------------------------------
@@ -1115,6 +1180,7 @@ type genCfg struct {
 	unsafeDel bool // cmap: allow Delete*/Clear on keys in use
 	batches   bool // fifomap / cmap: frozen-map batches
 	shutdown  bool // outer: one shutdown somewhere
+	noGrace   bool // outer: the grace period is hours: never wait for it
 }
 
 // genBatch: 2..3 calls of distinct threads that start while the map is frozen. Mostly a release
@@ -1131,6 +1197,22 @@ func genBatch(r *hx.Rand, g genCfg, prev obsRec, idle, hold []int) (c13Op, bool)
 		return op
 	}
 	var ms []c13Op
+	var fresh []int
+	for k := 0; k < g.keys; k++ {
+		if !otherUsers(prev.St, prev.Keys, k, -1) {
+			fresh = append(fresh, k)
+		}
+	}
+	if len(fresh) > 0 && len(idle) >= 2 && r.Chance(1, 4) {
+		// the two FIRST calls of a fresh key at once (double-checked creation of the per-key state)
+		k := fresh[r.Intn(len(fresh))]
+		a, b := idle[0], idle[1+r.Intn(len(idle)-1)]
+		ms = []c13Op{acq(a, k), acq(b, k)}
+		if g.lock == "cmap" && !cmapBatchOK(ms, prev) {
+			return c13Op{}, false
+		}
+		return c13Op{Op: "batch", Ops: ms, P1: r.Chance(1, 3)}, true
+	}
 	if len(hold) > 0 && r.Chance(3, 4) {
 		h := hold[r.Intn(len(hold))]
 		k := prev.Keys[h]
@@ -1177,7 +1259,7 @@ func genBatch(r *hx.Rand, g genCfg, prev obsRec, idle, hold []int) (c13Op, bool)
 		}
 		ms = append(ms, m)
 	}
-	if len(ms) < 2 || (g.lock == "cmap" && !cmapBatchOK(ms, prev)) {
+	if len(ms) < 2 || (g.lock == "cmap" && !cmapBatchOK(ms, prev)) || (g.lock == "fifomap" && !fifoBatchOK(ms, prev)) {
 		return c13Op{}, false
 	}
 	return c13Op{Op: "batch", Ops: ms, P1: r.Chance(1, 2)}, true
@@ -1217,7 +1299,7 @@ func genScript(r *hx.Rand, g genCfg) func(prev obsRec, step int) (c13Op, bool) {
 			if drainLeft < 0 || len(hold) == 0 {
 				if len(wait) > 0 && drainLeft >= 0 && (g.lock == "ctx" || g.lock == "outer") {
 					// waiting with nobody holding: only possible behind a pending grace period
-					if g.lock == "outer" {
+					if g.lock == "outer" && !g.noGrace {
 						return c13Op{Op: "grace"}, true
 					}
 				}
@@ -1225,7 +1307,7 @@ func genScript(r *hx.Rand, g genCfg) func(prev obsRec, step int) (c13Op, bool) {
 			}
 			return c13Op{Op: "unlock", T: hold[r.Intn(len(hold))]}, true
 		}
-		if g.lock == "outer" && len(wait) > 0 && r.Chance(2, 5) {
+		if g.lock == "outer" && !g.noGrace && len(wait) > 0 && r.Chance(2, 5) {
 			return c13Op{Op: "grace"}, true
 		}
 		if g.batches && len(idle) > 0 && r.Chance(1, 3) {
@@ -1294,7 +1376,7 @@ func genScript(r *hx.Rand, g genCfg) func(prev obsRec, step int) (c13Op, bool) {
 					}
 					return c13Op{Op: "delete", K: k}, true
 				}
-			case x < 93 && g.lock == "outer":
+			case x < 93 && g.lock == "outer" && !g.noGrace:
 				if len(wait) > 0 {
 					return c13Op{Op: "grace"}, true
 				}
@@ -1314,11 +1396,13 @@ func genScript(r *hx.Rand, g genCfg) func(prev obsRec, step int) (c13Op, bool) {
 // stress
 
 func runStress(ctx *core.Ctx, in c13Input) {
+	jwrite("START", in)
 	if in.N < 2 || in.N > 8 || in.Keys < 1 || in.Keys > 3 || in.Iters < 1 {
 		panic("c13: stress parameters out of range")
 	}
 	occ := make([]int32, in.Keys)
 	var bad, errsHeld atomic.Int32
+	var stop atomic.Bool // after a violation nobody releases any more: a release could hit an unlocked mutex (fatal)
 	var lk lockObj
 	var fm fifoMapLock
 	switch in.Lock {
@@ -1347,7 +1431,7 @@ func runStress(ctx *core.Ctx, in c13Input) {
 					bad.Add(1)
 				}
 			}()
-			for i := 0; i < in.Iters; i++ {
+			for i := 0; i < in.Iters && !stop.Load(); i++ {
 				k := rr.Intn(in.Keys)
 				write := !rw || rr.Chance(1, 2)
 				c := context.Background()
@@ -1378,14 +1462,19 @@ func runStress(ctx *core.Ctx, in c13Input) {
 				if write {
 					if v := atomic.AddInt32(&occ[k], 1<<16); v != 1<<16 {
 						bad.Add(1)
+						stop.Store(true)
 					}
 				} else {
 					if v := atomic.AddInt32(&occ[k], 1); v>>16 != 0 {
 						bad.Add(1)
+						stop.Store(true)
 					}
 				}
 				if rr.Chance(1, 4) {
 					runtime.Gosched()
+				}
+				if stop.Load() {
+					return
 				}
 				if write {
 					atomic.AddInt32(&occ[k], -(1 << 16))
@@ -1402,13 +1491,20 @@ func runStress(ctx *core.Ctx, in c13Input) {
 	done := make(chan struct{})
 	go func() { wg.Wait(); close(done) }()
 	hang := false
-	select {
-	case <-done:
-	case <-time.After(60 * time.Second):
-		hang = true
+	for waited := time.Duration(0); ; waited += 20 * time.Millisecond {
+		select {
+		case <-done:
+		case <-time.After(20 * time.Millisecond):
+			if waited > 60*time.Second {
+				hang = true
+			} else if !(stop.Load() && waited > 2*time.Second) { // after a violation the others may be wedged
+				continue
+			}
+		}
+		break
 	}
 	leaked, stuckAfter := 0, false
-	if !hang {
+	if !hang && !stop.Load() {
 		if in.Lock == "fifomap" {
 			leaked = fm.entries()
 		}
@@ -1438,9 +1534,9 @@ func runStress(ctx *core.Ctx, in c13Input) {
 		c.Direct = 2
 		c.Note = "stress run: occupancy violation, hang, leaked fifo-map entry or stuck lock"
 	}
-	ctx.Sink.Count("kind=stress/" + in.Lock)
-	ctx.Sink.Extra["stress_acquisitions/"+in.Lock] = acquisitions.Load()
-	ctx.Sink.Add(c)
+	count(ctx, "kind=stress/"+in.Lock)
+	extra(ctx, "stress_acquisitions/"+in.Lock, acquisitions.Load())
+	addCase(ctx, c)
 }
 
 // ---------------------------------------------------------------------------------------
@@ -1451,6 +1547,7 @@ func runStress(ctx *core.Ctx, in c13Input) {
 // probability per run, which is why it complements the frozen-map batches and never replaces them.
 
 func runChurn(ctx *core.Ctx, in c13Input) {
+	jwrite("START", in)
 	if in.N < 2 || in.N > 4 || in.Maps < 1 || in.Maps > 64 || in.Iters < 1 {
 		panic("c13: churn parameters out of range")
 	}
@@ -1513,6 +1610,9 @@ func runChurn(ctx *core.Ctx, in c13Input) {
 					if rr.Chance(1, 64) {
 						runtime.Gosched()
 					}
+					if stop.Load() {
+						return // after a violation nobody releases any more
+					}
 					if write {
 						atomic.AddInt32(occ, -(1 << 16))
 					} else {
@@ -1567,18 +1667,161 @@ loop:
 		c.Direct = 2
 		c.Note = "churn run: two holders of one key, panic inside the lock, hang or leaked fifo-map entry"
 	}
-	ctx.Sink.Count("kind=churn/" + in.Lock)
-	if n, ok := ctx.Sink.Extra["churn_acquisitions/"+in.Lock].(int64); ok {
-		ctx.Sink.Extra["churn_acquisitions/"+in.Lock] = n + acquisitions.Load()
-	} else {
-		ctx.Sink.Extra["churn_acquisitions/"+in.Lock] = acquisitions.Load()
-	}
-	ctx.Sink.Add(c)
+	count(ctx, "kind=churn/"+in.Lock)
+	extra(ctx, "churn_acquisitions/"+in.Lock, acquisitions.Load())
+	addCase(ctx, c)
 }
 
 // ---------------------------------------------------------------------------------------
 
+// ---------------------------------------------------------------------------------------
+// Supervisor / worker. A slip in a lock can kill the process outright ("fatal error: sync: Unlock
+// of unlocked RWMutex", "all goroutines are asleep - deadlock!"): neither can be recovered, and a
+// dead harness has no case to show. So the real work runs in a CHILD process (this binary again,
+// C13_CHILD=1) that appends to a journal, before anything can go wrong, which input it is about
+// to run (and every step of a script as it is issued) and every finished case. The parent turns
+// the journal into cases; an input that was in flight when the child died becomes a case of its
+// own with verdict 3 ("the process died running this input") - a concrete replay.
+
+var journal *os.File
+
+func jwrite(tag string, v any) {
+	if journal == nil {
+		return
+	}
+	b, _ := json.Marshal(v)
+	journal.Write(append(append([]byte(tag+" "), b...), '\n'))
+}
+
+func addCase(ctx *core.Ctx, c hx.Case) {
+	jwrite("CASE", c)
+	ctx.Sink.Add(c)
+}
+
+func isChild() bool { return os.Getenv("C13_CHILD") == "1" }
+
+// runChild runs this binary on (a) the generation of the whole tier or (b) one recorded input,
+// and merges what it produced into the parent's sink.
+func runChild(ctx *core.Ctx, input json.RawMessage, phase string) {
+	dir, err := os.MkdirTemp("", "c13child")
+	if err != nil {
+		panic(err)
+	}
+	defer os.RemoveAll(dir)
+	args := []string{"-tier", ctx.Tier, "-seed", strconv.FormatUint(ctx.Seed, 10), "-out", filepath.Join(dir, "out")}
+	if input != nil {
+		f := filepath.Join(dir, "in.jsonl")
+		if err := os.WriteFile(f, append([]byte(input), '\n'), 0o644); err != nil {
+			panic(err)
+		}
+		args = append(args, "-inputs", f)
+	}
+	exe, err := os.Executable()
+	if err != nil {
+		panic(err)
+	}
+	jpath := filepath.Join(dir, "journal")
+	cmd := exec.Command(exe, args...)
+	cmd.Env = append(os.Environ(), "C13_CHILD=1", "C13_JOURNAL="+jpath, "C13_PHASE="+phase)
+	var out bytes.Buffer
+	cmd.Stdout, cmd.Stderr = &out, &out
+	limit := 20 * time.Minute
+	if ctx.Thorough {
+		limit = 110 * time.Minute
+	}
+	if err := cmd.Start(); err != nil {
+		panic(err)
+	}
+	waitErr := make(chan error, 1)
+	go func() { waitErr <- cmd.Wait() }()
+	var runErr error
+	select {
+	case runErr = <-waitErr:
+	case <-time.After(limit):
+		cmd.Process.Kill()
+		runErr = fmt.Errorf("killed after %v", limit)
+		<-waitErr
+	}
+	// the journal: finished cases, and the input in flight (if any)
+	var inflight *c13Input
+	if jf, err := os.Open(jpath); err == nil {
+		sc := bufio.NewScanner(jf)
+		sc.Buffer(make([]byte, 1<<20), 1<<28)
+		for sc.Scan() {
+			line := sc.Text()
+			tag, rest, _ := strings.Cut(line, " ")
+			switch tag {
+			case "START":
+				var in c13Input
+				if json.Unmarshal([]byte(rest), &in) == nil {
+					inflight = &in
+				}
+			case "OP":
+				var op c13Op
+				if inflight != nil && json.Unmarshal([]byte(rest), &op) == nil {
+					inflight.Ops = append(inflight.Ops, op)
+				}
+			case "CASE":
+				var c hx.Case
+				if json.Unmarshal([]byte(rest), &c) == nil {
+					ctx.Sink.Add(c)
+					inflight = nil
+				}
+			case "COUNT":
+				var k string
+				if json.Unmarshal([]byte(rest), &k) == nil {
+					ctx.Sink.Count(k)
+				}
+			case "EXTRA":
+				var kv struct {
+					K string
+					V int64
+				}
+				if json.Unmarshal([]byte(rest), &kv) == nil {
+					old, _ := ctx.Sink.Extra[kv.K].(int64)
+					ctx.Sink.Extra[kv.K] = old + kv.V
+				}
+			}
+		}
+		jf.Close()
+	}
+	if runErr == nil {
+		return
+	}
+	tail := out.String()
+	if i := strings.Index(tail, "fatal error:"); i >= 0 {
+		tail = tail[i:]
+	} else if i := strings.Index(tail, "panic:"); i >= 0 {
+		tail = tail[i:]
+	}
+	if len(tail) > 600 {
+		tail = tail[:600]
+	}
+	if inflight == nil {
+		fmt.Fprintf(os.Stderr, "c13: worker process (phase %q) failed outside any input: %v\n%s\n", phase, runErr, tail)
+		os.Exit(2)
+	}
+	c := hx.Case{Kind: inflight.Kind, Input: hx.MustJSON(*inflight), Facts: map[string]any{"lock": inflight.Lock}, Direct: 3}
+	c.Class = fmt.Sprintf("died/%s/%s", inflight.Kind, inflight.Lock)
+	c.Note = "the process died while running this input (a Go fatal error or deadlock cannot be recovered): " + tail
+	c.Observed = map[string]any{"process_died": runErr.Error(), "output": tail}
+	ctx.Sink.Count("process_died_running_an_input")
+	ctx.Sink.Add(c)
+}
+
+func count(ctx *core.Ctx, k string) {
+	jwrite("COUNT", k)
+	ctx.Sink.Count(k)
+}
+
+func extra(ctx *core.Ctx, k string, v int64) {
+	jwrite("EXTRA", map[string]any{"K": k, "V": v})
+	old, _ := ctx.Sink.Extra[k].(int64)
+	ctx.Sink.Extra[k] = old + v
+}
+
 func c13Run(ctx *core.Ctx, in c13Input) {
+	jwrite("START", in)
 	switch in.Kind {
 	case "script":
 		runScript(ctx, in, nil)
@@ -1591,37 +1834,48 @@ func c13Run(ctx *core.Ctx, in c13Input) {
 	}
 }
 
-func c13Gen(ctx *core.Ctx) {
-	r := ctx.R
+var phases = []string{"stress", "churn", "fifo", "fifomap", "cmap", "ctx", "outer"}
+
+// c13Gen runs ONE phase of the generation (each phase is a process of its own, see runChild: a
+// phase that dies costs its remaining inputs only, and goroutines leaked by one phase do not
+// slow the quiescence tests of the next).
+func c13Gen(ctx *core.Ctx, phase string) {
+	idx := 0
+	for i, p := range phases {
+		if p == phase {
+			idx = i
+		}
+	}
+	r := hx.NewRand(ctx.Seed*1000003 + uint64(idx))
 	mul := 1
 	if ctx.Thorough {
 		mul = 25
 	}
-	// stress first (its goroutines are gone before the scripts start)
-	for _, lk := range []string{"fifo", "fifomap", "cmap", "ctx"} {
-		runs := 2 * mul
-		for i := 0; i < runs; i++ {
-			keys := 1 + i%3
-			if lk == "fifo" || lk == "ctx" {
-				keys = 1
+	switch phase {
+	case "stress":
+		for _, lk := range []string{"fifo", "fifomap", "cmap", "ctx"} {
+			for i := 0; i < 2*mul; i++ {
+				keys := 1 + i%3
+				if lk == "fifo" || lk == "ctx" {
+					keys = 1
+				}
+				runStress(ctx, c13Input{Kind: "stress", Lock: lk, N: r.Range(2, 8), Keys: keys, Iters: 1500, Seed: int64(r.U64() >> 1)})
 			}
-			runStress(ctx, c13Input{Kind: "stress", Lock: lk, N: r.Range(2, 8), Keys: keys, Iters: 1500, Seed: int64(r.U64() >> 1)})
 		}
-	}
-	for _, lk := range []string{"fifomap", "cmap", "fifo", "ctx"} {
-		iters := 3000
-		if lk == "fifomap" || lk == "cmap" {
-			iters = 25000 // the two maps prune / create per-key state: most of the churn budget goes here
+		return
+	case "churn":
+		for _, lk := range []string{"fifomap", "cmap", "fifo", "ctx"} {
+			iters := 3000
+			if lk == "fifomap" || lk == "cmap" {
+				iters = 25000 // the two maps prune / create per-key state: most of the churn budget goes here
+			}
+			for i := 0; i < 3*mul; i++ {
+				runChurn(ctx, c13Input{Kind: "churn", Lock: lk, N: 2 + i%2, Maps: 32, Iters: iters, Seed: int64(r.U64() >> 1)})
+			}
 		}
-		for i := 0; i < 3*mul; i++ {
-			runChurn(ctx, c13Input{Kind: "churn", Lock: lk, N: 2 + i%2, Maps: 32, Iters: iters, Seed: int64(r.U64() >> 1)})
-		}
+		return
 	}
-	type plan struct {
-		lock  string
-		count int
-	}
-	plans := []plan{{"fifo", 120}, {"fifomap", 380}, {"cmap", 380}, {"ctx", 320}, {"outer", 110}}
+	counts := map[string]int{"fifo": 120, "fifomap": 380, "cmap": 380, "ctx": 320, "outer": 110}
 	// cmap scripts that delete keys in use leave goroutines parked for ever on orphaned mutexes;
 	// every later quiescence test pays for them (runtime.Stack walks all goroutines), so these
 	// scripts are generated in their slot (same PRNG stream) but RUN last.
@@ -1629,63 +1883,160 @@ func c13Gen(ctx *core.Ctx) {
 	_, _, okF := mapLock(fifoMapLock{fifo.NewMap[int]()})
 	_, _, okC := mapLock(cmapLock{cmap.NewMutex[int]()})
 	batchesOK := okF && okC
-	if !batchesOK {
-		ctx.Sink.Count("batches_unavailable(internal map lock not recognised)")
+	if !batchesOK && (phase == "fifomap" || phase == "cmap") {
+		count(ctx, "batches_unavailable(internal map lock not recognised)")
 	}
-	for _, p := range plans {
-		for i := 0; i < p.count*mul; i++ {
-			g := genCfg{lock: p.lock, n: r.Range(2, 8), keys: r.Range(1, 3), steps: r.Range(4, 18)}
-			switch p.lock {
-			case "fifo", "ctx":
-				g.keys = 1
-				if i%3 == 0 {
-					g.n = r.Range(3, 8) // a contended lock with 3+ threads
-				}
-			case "outer":
-				g.keys = 1
-				g.n = r.Range(2, 5)
-				g.steps = r.Range(3, 10)
-				g.shutdown = i%4 == 0
-			case "cmap":
-				g.unsafeDel = i%8 == 0
-				g.batches = batchesOK && i%2 == 1
-			case "fifomap":
-				g.batches = batchesOK && i%2 == 1
-				if i%3 == 0 {
-					g.n = r.Range(3, 8)
-					g.keys = r.Range(1, 2)
-				}
+	if phase == "outer" {
+		outerFamilies(ctx, r, mul)
+	}
+	for i := 0; i < counts[phase]*mul; i++ {
+		g := genCfg{lock: phase, n: r.Range(2, 8), keys: r.Range(1, 3), steps: r.Range(4, 18)}
+		in := c13Input{Kind: "script", Lock: phase}
+		switch phase {
+		case "fifo", "ctx":
+			g.keys = 1
+			if i%3 == 0 {
+				g.n = r.Range(3, 8) // a contended lock with 3+ threads
 			}
-			in := c13Input{Kind: "script", Lock: p.lock, N: g.n, Keys: g.keys}
-			if p.lock == "outer" {
-				in.GraceMs = 50
+		case "outer":
+			g.keys = 1
+			g.n = r.Range(2, 5)
+			g.steps = r.Range(3, 10)
+			g.shutdown = i%4 == 0
+			in.GraceMs = 50
+			if i%3 == 2 {
+				// hours of grace: a writer that is not granted at once when nobody holds is wedged
+				in.GraceMs = longGraceMs
+				g.noGrace = true
 			}
-			fr := r.Fork()
-			if g.unsafeDel {
-				deferred = append(deferred, func() { runScript(ctx, in, genScript(fr, g)) })
-				continue
+		case "cmap":
+			g.unsafeDel = i%8 == 0
+			g.batches = batchesOK && i%2 == 1
+		case "fifomap":
+			g.batches = batchesOK && i%2 == 1
+			if i%3 == 0 {
+				g.n = r.Range(3, 8)
+				g.keys = r.Range(1, 2)
 			}
-			runScript(ctx, in, genScript(fr, g))
 		}
+		in.N, in.Keys = g.n, g.keys
+		fr := r.Fork()
+		if g.unsafeDel {
+			deferred = append(deferred, func() { runScript(ctx, in, genScript(fr, g)) })
+			continue
+		}
+		runScript(ctx, in, genScript(fr, g))
 	}
 	for _, f := range deferred {
 		f()
 	}
 }
 
+const longGraceMs = 3600000
+
+// outerFamilies: acquisitions that END IN AN ERROR followed by later use of the lock. A reader
+// whose context is already done when it calls RLock, or ends while its request is queued (behind
+// a request that waits for a writer's unlock, or in the 1-slot request channel), must leave
+// nothing behind whatever the random choices of the selects were: with hours of grace, a writer
+// that arrives when every granted reader has released must be granted at once, and the lock's
+// registrations (rcancels) must all belong to readers that were told "nil".
+func outerFamilies(ctx *core.Ctx, r *hx.Rand, mul int) {
+	run := func(n int, ops []c13Op) {
+		c13Run(ctx, c13Input{Kind: "script", Lock: "outer", N: n, Keys: 1, GraceMs: longGraceMs, Ops: ops})
+	}
+	for rep := 0; rep < 12*mul; rep++ {
+		// A: k RLocks on a context that is already done, then a writer
+		k := r.Range(1, 3)
+		c := r.Intn(nCtx)
+		ops := []c13Op{{Op: "cancel", C: c}}
+		if r.Chance(1, 3) { // a live reader comes and goes first
+			ops = append([]c13Op{{Op: "rlock", T: 4, C: (c + 1) % nCtx}, {Op: "unlock", T: 4}}, ops...)
+		}
+		for t := 1; t <= k; t++ {
+			ops = append(ops, c13Op{Op: "rlock", T: t, C: c})
+		}
+		for t := 1; t <= k; t++ {
+			ops = append(ops, c13Op{Op: "unlock", T: t}) // only those that were granted (skipped otherwise)
+		}
+		ops = append(ops, c13Op{Op: "lock", T: 0}, c13Op{Op: "rlock", T: 1, C: (c + 2) % nCtx}, c13Op{Op: "unlock", T: 0}, c13Op{Op: "unlock", T: 1})
+		run(5, ops)
+	}
+	for rep := 0; rep < 6*mul; rep++ {
+		// C: the grace period counts from the WRITER's request, not from the reader's admission:
+		// readers that have already held for 1..2 grace periods when the writer asks must still
+		// get the whole period (short grace, really waited for; judged one-sidedly: not told
+		// earlier than one period after the writer's call)
+		ops := []c13Op{{Op: "rlock", T: 1, C: r.Intn(nCtx)}}
+		for i, n := 0, r.Range(1, 2); i < n; i++ {
+			ops = append(ops, c13Op{Op: "grace"})
+		}
+		if r.Chance(1, 2) {
+			ops = append(ops, c13Op{Op: "rlock", T: 2, C: r.Intn(nCtx)}) // a young reader beside the old one
+		}
+		ops = append(ops, c13Op{Op: "lock", T: 0}, c13Op{Op: "grace"}, c13Op{Op: "unlock", T: 0},
+			c13Op{Op: "unlock", T: 1}, c13Op{Op: "unlock", T: 2})
+		c13Run(ctx, c13Input{Kind: "script", Lock: "outer", N: 3, Keys: 1, GraceMs: 50, Ops: ops})
+	}
+	for rep := 0; rep < 12*mul; rep++ {
+		// B: a writer holds; reader 1 is being handled (waits for the slot), reader 2 sits in the
+		// request channel, reader 3 is blocked sending; some of their contexts end; the writer
+		// unlocks; everybody who holds releases; a second writer must be granted at once
+		cs := []int{r.Intn(nCtx), r.Intn(nCtx), r.Intn(nCtx)}
+		ops := []c13Op{{Op: "lock", T: 0}}
+		readers := r.Range(2, 3)
+		for t := 1; t <= readers; t++ {
+			ops = append(ops, c13Op{Op: "rlock", T: t, C: cs[t-1]})
+		}
+		cancelled := 0
+		for t := readers; t >= 1; t-- {
+			if r.Chance(2, 3) || (t == 1 && cancelled == 0) {
+				ops = append(ops, c13Op{Op: "cancel", C: cs[t-1]})
+				cancelled++
+			}
+		}
+		ops = append(ops, c13Op{Op: "unlock", T: 0})
+		for t := 1; t <= readers; t++ {
+			ops = append(ops, c13Op{Op: "unlock", T: t})
+		}
+		ops = append(ops, c13Op{Op: "lock", T: 4}, c13Op{Op: "unlock", T: 4})
+		run(5, ops)
+	}
+}
+
 func main() {
+	if isChild() {
+		if p := os.Getenv("C13_JOURNAL"); p != "" {
+			f, err := os.OpenFile(p, os.O_CREATE|os.O_WRONLY|os.O_APPEND, 0o644)
+			if err != nil {
+				panic(err)
+			}
+			journal = f
+		}
+	}
 	core.Main("c13", &core.Prop{
 		Header:   "From Kit Require Import C13.Check.\nLocal Open Scope Z_scope.",
 		CaseType: "case",
 		CheckFn:  "run_cases",
 		Shard:    200,
-		Gen:      c13Gen,
+		Gen: func(ctx *core.Ctx) {
+			if isChild() {
+				c13Gen(ctx, os.Getenv("C13_PHASE"))
+				return
+			}
+			for _, ph := range phases {
+				runChild(ctx, nil, ph)
+			}
+		},
 		RunInput: func(ctx *core.Ctx, raw json.RawMessage) error {
 			var in c13Input
 			if err := json.Unmarshal(raw, &in); err != nil {
 				return err
 			}
-			c13Run(ctx, in)
+			if isChild() {
+				c13Run(ctx, in)
+			} else {
+				runChild(ctx, raw, "")
+			}
 			return nil
 		},
 	})
